@@ -1064,20 +1064,43 @@ func corpusSpecs(prop, tier string, depthQ, depthT int, exactToo bool, check fun
 				if tier == "thorough" {
 					sp.Depth = depthT
 				}
-				mn := m.MinIndexableValue()
-				for _, v := range []float64{0, 1, -1, m.LowerBound(2), 7.3, -7.3, mn / 2, 1e4} {
-					sp.Ops = append(sp.Ops, skAdd(0, v))
-				}
-				// 0.5 at two different values: fractional bins whose total equals the number of bins
-				sp.Ops = append(sp.Ops, skAddW(0, 1, 0.5), skAddW(0, 7.3, 0.5), skAddW(0, -7.3, 2), skAddW(0, 0, 0.25), skAddW(0, 2.5, 1<<20), skAddRunV(0, 1.0, 70),
-					skAdd(1, 1), skAdd(1, -7.3), skAddW(1, 0, 3), skAddW(1, 1e3, 3), skAddRunStride(1, 1.0, 100, 3),
-					skMerge(0, 1), skClear(0), skReweight(0, 0.5), skCodec(0, 1, false, false), skReadEncode(0))
-				sp.Ops = append(sp.Ops, extra...)
+				addCorpusOps(sp, m, extra)
 				specs = append(specs, sp)
 			}
 		}
 	}
+	// mappings as a decoder builds them (base and a non-default offset), and the
+	// paginated store paired with itself (index-delta blocks decoded into a buffer)
+	for _, k := range []byte{'G', 'I', 'C'} {
+		ms := MapSpec{Kind: k, Gamma: 1.21, Offset: -2.5}
+		sp := &SketchScenarioSpec{Name: fmt.Sprintf("%s/%s/P+P/exact=false", prop, ms), Property: prop, Map: ms,
+			Stores: []Kind{{K: 'P'}, {K: 'P'}}, Depth: depthQ,
+			Checks: []func(*SketchWorld, int) []mc.Fail{func(w *SketchWorld, slot int) []mc.Fail {
+				if slot != 0 {
+					return nil
+				}
+				return check(w, slot)
+			}}}
+		if tier == "thorough" {
+			sp.Depth = depthT
+		}
+		addCorpusOps(sp, ms.New(), extra)
+		sp.Ops = append(sp.Ops, skRead(0))
+		specs = append(specs, sp)
+	}
 	return specs
+}
+
+func addCorpusOps(sp *SketchScenarioSpec, m mapping.IndexMapping, extra []skOp) {
+	mn := m.MinIndexableValue()
+	for _, v := range []float64{0, 1, -1, m.LowerBound(2), 7.3, -7.3, mn / 2, 1e4} {
+		sp.Ops = append(sp.Ops, skAdd(0, v))
+	}
+	// 0.5 at two different values: fractional bins whose total equals the number of bins
+	sp.Ops = append(sp.Ops, skAddW(0, 1, 0.5), skAddW(0, 7.3, 0.5), skAddW(0, -7.3, 2), skAddW(0, 0, 0.25), skAddW(0, 2.5, 1<<20), skAddRunV(0, 1.0, 70),
+		skAdd(1, 1), skAdd(1, -7.3), skAddW(1, 0, 3), skAddW(1, 1e3, 3), skAddRunStride(1, 1.0, 100, 3),
+		skMerge(0, 1), skClear(0), skReweight(0, 0.5), skCodec(0, 1, false, false), skReadEncode(0))
+	sp.Ops = append(sp.Ops, extra...)
 }
 
 // skAddRunV: n unit additions of consecutive bins starting at v (macro: makes
